@@ -452,6 +452,27 @@ fn run_inner(ctx: &mut Ctx) {
             if sb2.len() > 84 { sb2[80..84].copy_from_slice(&count.to_le_bytes()); smx_case(ctx, &sb2, "hostile-count", true); }
         }
     }
+    // the track name is a text field like any other: codepage markers, lone and trailing carets, a marker after one byte, a
+    // double-byte character in front of a marker, markers only — whatever it holds, the file parses (or is refused) without aborting
+    {
+        let base = gen_smx(&mut ctx.rng, 2, 1);
+        if let Some(Ok(b)) = write_smx(&base) {
+            let fields: Vec<&[u8]> = vec![b"A^Jston", b"B^E\xEC\x9A", b"^Lx", b"x^", b"^", b"ab^8", b"\x93^J", b"^J\x93\xfa\x96\x7b", b"^^^^^^^^^^^^^^^^^^^^^^^^^^^^^^^^", b"a^", b"^8", b"\xe9^G\xe1^", b"As^Jton",
+                b"ABCDEFGHIJKLMNOPQRSTUVWXYZ0123^E", b"ABCDEFGHIJKLMNOPQRSTUVWXYZ01234^"];
+            for f in fields {
+                let mut img = b.clone();
+                for i in 0..32 { img[16 + i] = *f.get(i).unwrap_or(&0); }
+                // oracle only: the model keeps the track name as its bytes, while the crate decodes and re-encodes it (a redundant
+                // marker such as "A^Jston" is dropped on the way back out) — what is asked here is "no abort", not byte identity
+                smx_case(ctx, &img, "track-text", false);
+            }
+        }
+        for name in ["A\u{65e5}\u{672c}", "\u{11b}", "x\u{448}y\u{e9}", "Blackwood ^1GP", "50%^"] {
+            let mut t = gen_smx(&mut ctx.rng, 1, 0);
+            t.track = name.to_string();
+            if let Some(Ok(b)) = write_smx(&t) { smx_case(ctx, &b, "track-text", true); }
+        }
+    }
     // files that do not start at position 0 of their reader / writer
     for i in 0..(if quick { 4 } else { 40 }) {
         let s = gen_smx(&mut ctx.rng, 1 + i % 3, i % 2);
